@@ -303,9 +303,16 @@ def run(repo: Repo, ctx) -> None:
     get = ag.methods.get('get')
     if get is None:
         raise AnalysisError('AliasGenerator.get not found')
-    txt = norm(get.node)
-    ok = 'idx = self.nextval(hint)' in txt and "alias = f'{hint}~{idx}'" \
-        in txt and 'return alias' in txt
+    from ..model import inline_locals
+    rets = [r for r in ast.walk(get.node) if isinstance(r, ast.Return)
+            and r.value is not None]
+    if len(rets) != 1:
+        raise AnalysisError('AliasGenerator.get: return shape changed')
+    flat = inline_locals(get.node, rets[0].value)
+    hint = get.params()[1] if len(get.params()) > 1 else 'hint'
+    # the alias is exactly <hint>~<self.nextval(hint)>
+    ok = flat.replace('"', "'") in (
+        f"f'{{{hint}}}~{{self.nextval({hint})}}'",)
     names = {x.id for x in ast.walk(get.node) if isinstance(x, ast.Name)}
     ctx.ob('C13.R4', 'AliasGenerator.get:counter-only',
            ok and not (names & {'id', 'hash', 'random', 'time', 'uuid'}),
